@@ -12,10 +12,11 @@ package simrt
 import (
 	"fmt"
 	"os"
+	"runtime"
 	"unsafe"
 )
 
-const MaxClients = 8
+const MaxClients = 16
 
 type Policy int
 
@@ -86,6 +87,7 @@ type Outcome struct {
 	BodyPanics  [MaxClients]string
 	Starved     int // fairness guard fired
 	Deadlocks   int // every live client blocked on a lock held by another
+	Spawned     int // goroutines started by the library and run as simulated clients
 }
 
 // StepCapExceeded is the panic value raised from a yield point when an operation
@@ -116,6 +118,7 @@ type state struct {
 	first         int
 	blockedStreak uint64
 	deadlocks     int
+	spawned       int
 	// PCT
 	prio    [MaxClients]int
 	cps     [8]uint64
@@ -264,6 +267,10 @@ func RefMode(cap uint64) { s.refCap = cap; s.refSteps = 0 }
 //go:norace
 func RefSteps() uint64 { return s.refSteps }
 
+// RealSpawned reports how many real goroutines the library started outside a run and
+// that are still running (wired by the harness).
+var RealSpawned func() int32
+
 // noPreempt is provided by the instrumented copy (critical sections).
 var noPreempt *int
 
@@ -361,6 +368,29 @@ func Pass(site int) {
 	}
 }
 
+// Spawn makes body a new simulated client (the library executed a go statement). It
+// is scheduled like any other client; the spawning client keeps the baton.
+//
+//go:norace
+func Spawn(body func()) {
+	if !s.active || s.n >= MaxClients {
+		body() // a legal schedule: the child runs to completion first
+		return
+	}
+	i := s.n
+	s.n++
+	s.alive[i] = true
+	s.nAlive++
+	s.gates[i].w = 0
+	s.lstep[i] = 0
+	s.opSteps[i] = 0
+	s.lastSite[i] = -1000
+	s.lowPrio--
+	s.prio[i] = s.lowPrio
+	s.spawned++
+	go clientMain(i, body)
+}
+
 // BlockedYield is called by a client that found a lock held by a parked client: it
 // must give way. With nobody to give way to it just burns a step, so a genuine
 // deadlock ends in StepCapExceeded (outcome "stepcap", class no-return).
@@ -368,6 +398,11 @@ func Pass(site int) {
 //go:norace
 func BlockedYield() {
 	if !s.active {
+		if RealSpawned != nil && RealSpawned() > 0 {
+			// reference evaluation with real goroutines started by the library: wait for real
+			runtime.Gosched()
+			return
+		}
 		// outside a run nobody else can release the lock
 		s.blockedStreak++
 		if s.blockedStreak > 64 {
@@ -598,6 +633,7 @@ func setup(cfg *Config, n int) {
 	s.starved = 0
 	s.blockedStreak = 0
 	s.deadlocks = 0
+	s.spawned = 0
 	s.done.w = 0
 	for i := 0; i < MaxClients; i++ {
 		s.alive[i] = i < n
@@ -685,7 +721,7 @@ func Run(cfg *Config, bodies []func()) *Outcome {
 
 //go:norace
 func collect() *Outcome {
-	o := &Outcome{Steps: s.step, Preemptions: s.npre, First: s.first, Starved: s.starved, Deadlocks: s.deadlocks}
+	o := &Outcome{Steps: s.step, Preemptions: s.npre, First: s.first, Starved: s.starved, Deadlocks: s.deadlocks, Spawned: s.spawned}
 	o.Events = make([]Event, len(s.events))
 	copy(o.Events, s.events)
 	for i := 0; i < s.n; i++ {
